@@ -139,9 +139,20 @@ func TestC16Component(t *testing.T) {
 			plans = append(plans, rp)
 			m.Reset()
 			cur := 0
+			setupHow := r.Intn(4)
 			sc := &scenarios.Scenario{Name: rp.name, ScenarioFn: func(st *f1testing.T) f1testing.RunFn {
 				if rp.setupFailed {
-					st.Fail()
+					switch setupHow { // every way a setup can fail is a failed setup
+					case 0:
+						st.Fail()
+					case 1:
+						st.FailNow()
+					case 2:
+						panic("setup panicked")
+					default:
+						var m map[string]int
+						m["x"] = 1
+					}
 				}
 				return func(t *f1testing.T) {
 					if rp.outs[cur] == 1 {
